@@ -40,6 +40,15 @@ CAUGHT = {
     "C03-m4": ["C03 quick"], "C03-m5": ["C03 quick (top indices of forests with more than 2^53 trees)"],
     "C03-m6": ["C03 quick (after deep list forests were added to the big unit)"],
     "C05-m4": ["C05 quick"], "C05-m5": ["C05 quick"], "C05-m6": ["C05 quick"], "C05-m7": ["C05 quick (state budget)"],
+    "C07-m4": ["C07 quick"], "C07-m5": ["C07 quick (table correspondence; failing positions found by scanning over the model's own table)"],
+    "C07-m6": ["C07 quick"],
+    "C10-m4": ["C10 quick"], "C10-m5": ["C10 quick"], "C10-m6": ["C10 quick (custom recognizers at the end of the input)"],
+    "C11-m4": ["C11 quick (after the multi-head GLR recovery unit was added)"],
+    "C11-m5": ["C11 quick (after the injecting strategy learnt to notice a dropped injection: same LR configuration met again)"],
+    "C11-m6": ["C11 quick"],
+    "C12-m4": ["C12 quick (after the history clock got sub-second steps)"], "C12-m5": ["C12 quick"], "C12-m6": ["C12 quick"],
+    "C13-m4": ["C13 quick"], "C13-m5": ["C13 quick"],
+    "C13-m6": ["C13 quick (after shapes with an operator on a single-reference group carrying an operator were added)"],
     "C17-m1": ["C17 quick"], "C17-m2": ["C07 quick (scanner with consume_input=False); not C17 itself (its scope has no terminal priorities)"], "C17-m3": ["C17 quick"],
 }
 
